@@ -1,13 +1,50 @@
 META = {
-    "assumptions": ["allocation failure out of scope (--no-malloc-may-fail)"],
-    "outside": [],
+    "id": "C11",
+    "assumptions": [
+        "allocation failure out of scope (--no-malloc-may-fail)",
+        "featedit / featnames / featureset: request strings are concrete per query (14 / 17 strings); libc string functions are CBMC's models, "
+        "isspace() the function (glibc -D__NO_CTYPE), sprintf a stub for the one format FEATURE_%c%d",
+        "featureset: the heavy callees of update_feature_set are cut to recording stubs that succeed (remove_journal_inode, remove_journal_device, "
+        "enable_uninit_bg, disable_uninit_bg, has_casefold_inode, ext2fs_read_bitmaps, mmp / orphan-file / quota helpers); not on a terminal "
+        "(check_fsck_needed does not prompt); dynamic-revision superblock; metadata_csum and uninit_bg never both set",
+        "dirtail / dxlimit: one directory block, well formed for the OLD feature set (freshly checked file system); block read / write are stubs on a "
+        "byte array, little-endian host; an htree leaf that is one empty record spanning the block is excluded (indistinguishable from an interior node)",
+        "itable: scaled-down geometry (inode size 4..8 -> 8..32 bytes, 16 / 32-byte blocks; expand_inode_table has no size constant); the enlarged tables "
+        "lie inside the device and do not overlap (that is movemap's / moveblk's job)",
+        "mntedit / mntnames: 10 concrete -o request strings; the journalling mode of s_default_mount_opts is treated as a 2-bit field as the code does",
+        "jrelease / xlate / moveblk / movemap: bitmaps are one byte per block (bytemap.h); the block iterator, the allocator (first free block at or after "
+        "the goal, wrapping), the bad-block list and the device are stubs; no flex_bg (tune2fs -I refuses it), no bigalloc",
+    ],
+    "outside": [
+        "THIS IS A SET OF KERNEL SLICES. No harness runs tune2fs main(), none runs a sequence of tune2fs invocations, none traverses a whole file "
+        "system, none decides 'every file is unchanged' or 'e2fsck afterwards completes the conversion and checks clean'. The property as stated "
+        "(any sequence of accepted requests on any consistent file system) is NOT decided",
+        "rewrite_metadata_checksums / rewrite_inodes / rewrite_one_inode / rewrite_directory (the traversal: which objects get a new checksum), "
+        "update_xattr_entry_hashes, the checksum values themselves (C14), ext2fs_init_csum_seed, MMP and journal superblock checksums",
+        "enable_uninit_bg / disable_uninit_bg / zero_empty_inodes (group descriptor and bitmap rewrites), add_journal, remove_journal_device, "
+        "handle_quota_options and lib/support quota code, orphan-file creation / truncation, ext2fs_mmp_init / mmp_clear",
+        "main(): option parsing (getopt, parse_time, -c -C -e -g -i -m -r -u -L -M -E -U -T arithmetic), the order of the option handlers, the UUID change "
+        "(-U) incl. fs_update_journal_user, the undo file set-up, the closefs path (exit(1) without ext2fs_close after a refusal is read off the source, "
+        "not decided), update_mntopts / e2p_edit_mntopts, parse_extended_opts",
+        "inode_scan_and_fix (the inode walk of -I: EA block translation, ext2fs_block_iterate3 on real extent trees / indirect blocks), "
+        "ext2fs_calculate_summary_stats, resize_inode's sequencing and its error / undo paths, the real allocator ext2fs_new_block2, the real bitmap code",
+        "request strings other than the 14 / 17 listed; lists that mix a refused and an accepted dependency rule; dir_index, orphan_file, mmp, casefold, "
+        "encrypt, project, sparse_super, stable_inodes, verity, read-only requests of update_feature_set",
+        "directory blocks larger than 64 bytes, the dx root block (block 0 of an indexed directory), inline-data directories, clear_htree (dir_index being "
+        "removed), byte-swapped (big-endian) hosts",
+    ],
 }
 HARNESSES = [
     dict(name="ingroup", src="ingroup.c", extra_src=["lib/ext2fs/blknum.c"],
-         funcs=["ext2fs_is_block_in_group", "ext2fs_is_meta_block", "ext2fs_group_of_blk2"],
-         configs=[{"CHECK": 2}, {"CHECK": 1}],
-         unwind=6, backends=["default", "kissat", "z3"], witness_per_config=True,
+         funcs=["ext2fs_is_block_in_group"], stubs=["gettext", "puts", "printf", "fprintf", "fputs"],
+         configs=[{"CHECK": 1}],
+         unwind=6, backends=["z3", "kissat", "default"],
          bound="first data block 0/1, blocks per group 8..65528, group < 2^16, block < 2^48: all symbolic"),
+    dict(name="metablock", src="ingroup.c", extra_src=["lib/ext2fs/blknum.c"],
+         funcs=["ext2fs_is_meta_block", "ext2fs_group_of_blk2", "ext2fs_block_bitmap_loc"], stubs=["gettext", "puts", "printf", "fprintf", "fputs"],
+         configs=[{"CHECK": 2}],
+         unwind=6, backends=["kissat", "default", "z3"],
+         bound="first data block 0/1, blocks per group 8..65528, 4 groups, block anywhere in them, bitmap locations of its group: all symbolic"),
 ]
 HARNESSES += [
     dict(name="featedit", src="featedit.c",
@@ -100,4 +137,100 @@ HARNESSES += [
          bound="17 concrete -O requests; the three feature words, s_state, s_lastcheck, s_mtime, mount state (mounted / read-only / busy), "
                "number of -f, journal inode / device numbers, stored and live checksum seed, -J size, -Q given: all symbolic"),
 ]
-MANIFEST = {"text": "", "note": ""}
+def jr_uw(ng, bpg, nj):
+    nb = 1 + ng * bpg
+    return ["main.%d:%d" % (i, max(nb, 18, 130) + 1) for i in range(16)] + \
+        ["ext2fs_mark_generic_bmap.0:%d" % (nb + 1), "ext2fs_unmark_generic_bmap.0:%d" % (nb + 1), "ext2fs_test_generic_bmap.0:%d" % (nb + 1),
+         "ext2fs_block_iterate3.0:%d" % (nj + 1), "ext2fs_group_desc_csum_set.0:%d" % (ng + 1), "memset.0:70"]
+
+HARNESSES += [
+    dict(name="jrelease", src="jrelease.c", extra_src=["lib/ext2fs/blknum.c"],
+         funcs=["remove_journal_inode", "release_blocks_proc", "ext2fs_group_of_blk2", "ext2fs_bg_free_blocks_count_set", "ext2fs_free_blocks_count_add"],
+         stubs=T2F_STUBS + ["ext2fs_read_inode", "ext2fs_write_inode", "ext2fs_read_bitmaps", "ext2fs_block_iterate3", "ext2fs_group_desc_csum_set",
+                            "ext2fs_mark_generic_bmap", "ext2fs_unmark_generic_bmap", "ext2fs_test_generic_bmap"],
+         configs=[{"NG": 3, "BPG": 8, "NJ": 3, "_unwindset": jr_uw(3, 8, 3)},
+                  {"NG": 2, "BPG": 8, "NJ": 1, "_unwindset": jr_uw(2, 8, 1)},
+                  {"NG": 3, "BPG": 8, "NJ": 5, "_unwindset": jr_uw(3, 8, 5), "_tier": "thorough"}],
+         unwind=4, backends=["default", "kissat"], witness_per_config=True,
+         bound="2..3 groups x 8 blocks, journal of 1 / 3 (thorough 5) blocks anywhere; in-use set, journal inode number, flags, s_jnl_blocks, overhead symbolic"),
+]
+def bm_uw(ng, bpg):
+    nb = 1 + ng * bpg
+    return ["main.%d:%d" % (i, max(nb * 2, 8) + 1) for i in range(24)] + \
+        ["ext2fs_mark_generic_bmap.0:%d" % (nb + 1), "ext2fs_unmark_generic_bmap.0:%d" % (nb + 1), "ext2fs_test_generic_bmap.0:%d" % (nb + 1),
+         "move_block.0:%d" % (nb + 1), "translate_block.0:%d" % (nb + 1), "group_desc_scan_and_fix.0:%d" % (ng + 1),
+         "ext2fs_new_block2.0:%d" % (nb + 1), "ext2fs_new_block2.1:%d" % (nb + 1),
+         "io_channel_read_blk64.0:3", "io_channel_read_blk64.1:%d" % (nb + 1), "io_channel_write_blk64.0:3", "io_channel_write_blk64.1:%d" % (nb + 1)]
+
+BM_STUBS = T2F_STUBS + ["ext2fs_mark_generic_bmap", "ext2fs_unmark_generic_bmap", "ext2fs_test_generic_bmap"]
+HARNESSES += [
+    dict(name="xlate", src="blkmove.c", defs=["MODE=1"], extra_src=["lib/ext2fs/blknum.c"],
+         funcs=["translate_block", "process_block", "group_desc_scan_and_fix", "ext2fs_block_bitmap_loc_set"],
+         stubs=BM_STUBS,
+         configs=[{"NG": 3, "BPG": 4, "_unwindset": bm_uw(3, 4)}],
+         unwind=5, backends=["default", "kissat"],
+         bound="list of 3 moves among 13 blocks (3 groups x 4), every old / new location, every to-move bitmap, every bitmap placement, every probe"),
+    dict(name="moveblk", src="blkmove.c", defs=["MODE=2"], extra_src=["lib/ext2fs/blknum.c"],
+         funcs=["move_block", "ext2fs_is_meta_block", "ext2fs_is_block_in_group", "translate_block", "ext2fs_group_of_blk2"],
+         stubs=BM_STUBS + ["ext2fs_new_block2", "io_channel_read_blk64", "io_channel_write_blk64"],
+         configs=[{"NG": 2, "BPG": 4, "_unwindset": bm_uw(2, 4)},
+                  {"NG": 3, "BPG": 4, "_unwindset": bm_uw(3, 4), "_tier": "thorough"}],
+         unwind=5, backends=["default", "kissat"], witness_per_config=True,
+         bound="2 (thorough 3) groups x 4 blocks + block 0, 2-byte blocks: every in-use set, every to-move subset, every bitmap placement inside its group, every device content"),
+]
+def mm_uw(ng, bpg, newb):
+    nb = 1 + ng * bpg
+    return ["main.%d:%d" % (i, nb + 1) for i in range(12)] + \
+        ["ext2fs_mark_generic_bmap.0:%d" % (nb + 1), "ext2fs_unmark_generic_bmap.0:%d" % (nb + 1), "ext2fs_test_generic_bmap.0:%d" % (nb + 1),
+         "get_move_bitmaps.0:%d" % (newb + 1), "get_move_bitmaps.1:%d" % (ng + 1)]
+
+HARNESSES += [
+    dict(name="movemap", src="movemap.c", extra_src=["lib/ext2fs/blknum.c"],
+         funcs=["get_move_bitmaps", "ext2fs_inode_table_loc"],
+         stubs=BM_STUBS + ["ext2fs_read_bb_inode", "ext2fs_badblocks_list_test", "ext2fs_badblocks_list_free"],
+         configs=[{"NG": 2, "BPG": 8, "OLDB": 1, "NEWB": 3, "_unwindset": mm_uw(2, 8, 3)},
+                  {"NG": 2, "BPG": 8, "OLDB": 2, "NEWB": 4, "_unwindset": mm_uw(2, 8, 4)},
+                  {"NG": 3, "BPG": 8, "OLDB": 2, "NEWB": 4, "_unwindset": mm_uw(3, 8, 4), "_tier": "thorough"}],
+         unwind=5, backends=["default", "kissat"], witness_per_config=True,
+         bound="2 (thorough 3) groups x 8 blocks, last group 1..8 blocks long, inode table 1 -> 3 / 2 -> 4 blocks anywhere in its group; "
+               "in-use set, free count, one optional bad block: symbolic"),
+]
+MNT_UW = ["e2p_string2mntopt.0:14", "e2p_mntopt2string.0:14", "e2p_mntopt2string.1:33", "strcasecmp.0:24", "strncasecmp.0:9",
+          "skip_over_word.0:24", "skip_over_blanks.0:4", "e2p_edit_mntopts.0:5", "strlen.0:40", "strcpy.0:40", "sprintf.0:17",
+          "main.0:34", "main.1:34", "main.2:34", "strtol.0:4"]
+HARNESSES += [
+    dict(name="mntedit", src="mntedit.c",
+         funcs=["e2p_edit_mntopts", "e2p_string2mntopt", "skip_over_word", "skip_over_blanks"],
+         configs=[{"TOK": t} for t in range(1, 11)],
+         unwind=8, unwindset=MNT_UW, backends=["default"], witness_per_config=True,
+         bound="10 concrete -o request strings; s_default_mount_opts and the permission mask: all 2^64 values"),
+    dict(name="mntnames", src="mntedit.c", defs=["ROUNDTRIP"],
+         funcs=["e2p_mntopt2string", "e2p_string2mntopt"],
+         configs=[{}],
+         unwind=8, unwindset=MNT_UW, backends=["default"],
+         bound="bits 0..30 of s_default_mount_opts, enumerated"),
+]
+MANIFEST = {
+    "level": "model_checking",
+    "technique": "Bounded-exhaustive model checking (CBMC 6.11) of kernel slices of misc/tune2fs.c and lib/e2p/feature.c compiled from the real "
+                 "sources: the -O request parser and name table, update_feature_set's permission / dependency / guard rules for 17 requests, the "
+                 "directory-block conversion of the checksum rewrite (leaf tail insertion / removal, htree limit), and the pieces of the inode-size "
+                 "change (blocks to move, relocation, reference translation, inode-table expansion) plus journal block release. Each harness: symbolic "
+                 "pre-state under a stated invariant, ONE call of the real function, an independent reference written from the on-disk format / "
+                 "tune2fs(8); counterexamples are replayed natively (gcc + ASan/UBSan) against the same sources.",
+    "text": "Within each harness's stated bounds the verdict covers every value of the symbolic inputs (feature words, masks, block contents, "
+            "bitmaps, geometry placements). This is a THIN set of slices of C11: no run of tune2fs main, no sequence of runs, no whole-file-system "
+            "traversal, no 'e2fsck afterwards checks clean'. Nine queries fail on the pinned tree on five genuine defects (see note).",
+    "note": "Trusted: CBMC's C semantics and libc string models, the recording stubs and the byte-per-block bitmap stand-in, the harness's restatement "
+            "of the on-disk format and of tune2fs(8). Genuine defects of the pinned tree reported by the harnesses (each reproduced natively; the two "
+            "with a demo script also with the real binaries): (1) featureset[REQ=10], [REQ=17]: 'tune2fs -O none' / '-O clear' is accepted and wipes all "
+            "feature words, bypassing clear_ok_features (harness/C11/demo_O_none.sh); (2) movemap: get_move_bitmaps does not check that the enlarged inode "
+            "table fits in the (short last) group / the file system: accesses and later writes past the end (harness/C11/demo_I_short_last_group.sh); "
+            "(3) ingroup[CHECK=1] and moveblk: ext2fs_is_block_in_group accepts the first block of the NEXT group (blk <= end_blk), so a relocated bitmap may "
+            "leave its group; (4) moveblk: move_block's meta_data flag is never reset, so after one bitmap block every later data block must land in that "
+            "bitmap's group or the run fails with a spurious ENOSPC; (5) mntedit[TOK=8], [TOK=9], mntnames: e2p_string2mntopt reads the number of MNTOPT_<n> "
+            "from index 8 instead of 7: 'tune2fs -o MNTOPT_12' sets bit 2 (user_xattr), MNTOPT_9 is refused, e2p_mntopt2string's output does not parse back. "
+            "Candidate patches (not applied; each makes the failing queries pass): harness/C11/candidate_fix_*.diff.",
+}
+MANIFEST["assumptions"] = META["assumptions"]
+MANIFEST["outside"] = META["outside"]
